@@ -417,7 +417,10 @@ func (a *area) Run(line string) string {
 			return "bad-op"
 		}
 	case "dump":
-		return dump(w, n)
+		if d := wbDump(w.ns[n], func(t notifier.Target) int { return w.ids[t] }); d != "" {
+			return d
+		}
+		return "dump-unavailable"
 	default:
 		if !w.doOp(f) {
 			return "bad-op"
